@@ -27,13 +27,7 @@ def translate():
 
 
 def changed():
-    try:
-        cur, ref = drvgen.functions(open(OUT).read()), drvgen.functions(open(REF).read())
-    except FileNotFoundError:
-        return []
-    ch = [n for n, (f, t) in cur.items() if n not in ref or ref[n][1] != t]
-    ch += [n for n in ref if n not in cur]
-    return sorted(set(ch))
+    return sorted(set(n for (n, f) in drvgen.changed_vs(OUT, REF)))
 
 
 def enum_obligations(res, pid):
@@ -41,10 +35,10 @@ def enum_obligations(res, pid):
     res.cov["veconst_source_tie"] = ("every %s* of package veconst translated by gvgen enum into Gen/EnumImpl.v on this run and proved equal "
                                      "to the model for every integer (Tables/EnumRefine.v)" % PREFIX[pid].rstrip("_"))
     if BROKEN is not None:
-        m = re.search(r"\(function (\w+)\)", BROKEN.detail)
-        f = m.group(1) if m else None
+        fs = sorted(set(n for (n, _) in drvgen.failed_functions(BROKEN.detail)))
+        f = ", ".join(fs)
         res.cov["obligations"] = res.cov.get("obligations", 0) + len(ths)
-        if f is None or f + "_" == PREFIX[pid]:
+        if not fs or any(x + "_" == PREFIX[pid] for x in fs):
             res.broken.append(BROKEN)
         else:
             res.partial.append("veconst source tie not re-established on this run: the translator stopped in a %s" % f)
